@@ -12,7 +12,9 @@ import (
 	"context"
 	"crypto/sha1" //nolint:gosec
 	"encoding/hex"
+	"encoding/json"
 	"fmt"
+	"io"
 	"net/http"
 	"net/http/httptest"
 	"os"
@@ -320,6 +322,44 @@ func runKeyFileCase(w *gal.Writer, seg string) {
 	emitKeyring(w, "keyring-file-dirfs", c, element, err, nil)
 }
 
+// key URLs published in alpine's releases.json (fetchAlpineKeys, reached through InitDB
+// with an alpine build repository): the file name is url.PathUnescape(filepath.Base(url)),
+// written with OpenFile — which asks the in-memory tree first
+func runAlpineKeysCase(w *gal.Writer, backend, seg string) {
+	c := newCanary()
+	defer c.close()
+	keyURL := "https://alpinelinux.org/keys/" + seg
+	rel, _ := json.Marshal(map[string]any{"release_branches": []map[string]any{{"rel_branch": "v3.18",
+		"keys": map[string]any{"x86_64": []map[string]any{{"url": keyURL}}}}}})
+	rt := &cannedRT{handler: func(req *http.Request) *http.Response {
+		body, st := "", 404
+		switch {
+		case req.URL.String() == "https://alpinelinux.org/releases.json":
+			body, st = string(rel), 200
+		case strings.HasPrefix(req.URL.Path, "/keys/"):
+			body, st = "ALPINE KEY", 200
+		}
+		return &http.Response{StatusCode: st, Status: http.StatusText(st), Proto: "HTTP/1.1", ProtoMajor: 1, ProtoMinor: 1, Header: http.Header{},
+			Body: io.NopCloser(strings.NewReader(body)), ContentLength: int64(len(body)), Request: req}
+	}}
+	var ierr error
+	func() {
+		defer func() {
+			if r := recover(); r != nil {
+				ierr = fmt.Errorf("panic: %v", r)
+			}
+		}()
+		a, err := apk.New(apk.WithFS(backendFS(c, backend)), apk.WithArch("x86_64"), apk.WithIgnoreMknodErrors(true), apk.WithTransport(rt))
+		if err != nil {
+			ierr = err
+			return
+		}
+		ierr = a.InitDB(context.Background(), "https://dl-cdn.alpinelinux.org/alpine/v3.18/main")
+	}()
+	emitCanary(w, "alpine-keys-"+backend, nil, false, c.outsideChanges(),
+		map[string]any{"key_url": keyURL, "backend": backend, "error": c.abstract(errStr(ierr)), "requests": len(rt.seen)})
+}
+
 // ---- package and index URLs through the disk cache ----------------------------------------
 
 var urlTails = []string{
@@ -563,6 +603,10 @@ func stageCanary2(w *gal.Writer, r *gal.Rand) {
 			}
 		}
 	}
+	for _, seg := range keySegments {
+		runAlpineKeysCase(w, "dirfs", seg)
+	}
+	runAlpineKeysCase(w, "memfs", keySegments[2])
 	// -- package and index URLs through the disk cache -------------------------------------
 	for i, t := range urlTails {
 		runFetchCase(w, t, etags[i%len(etags)])
